@@ -57,7 +57,16 @@ def timeline(mode, rng_seed, sched_seed):
     L.append(cfg("".join(t for _, t in vs)))
     nb = rng.randint(4, len(bs))
     chosen = bs[:nb]
+    walker = rng.rand() < 0.5
+    if walker:
+        # a multiple-walker metadynamics bias (it writes its hills for the other walkers at every deposition, its state at exchanges):
+        # placed after the first bias, so that it is not the first work item
+        chosen = chosen[:1] + [("mw", "metadynamics {\n name mw\n colvars a\n hillWeight 0.1\n hillWidth 2.0\n newHillFrequency 2\n useGrids off\n"
+                                      " multipleReplicas on\n replicaID w0\n replicasRegistry reg.txt\n replicaUpdateFrequency 5\n}\n")] + chosen[1:]
+        L.append("m.chdir %s" % os.path.join(cvbuild.CACHE, "c12-walker", "%d_%d_%s" % (rng_seed, sched_seed, "_".join(map(str, mode)))))
     L.append(cfg("".join(t for _, t in chosen)))
+    if walker:
+        L.append("m.opt prefix mwout")
     P = [[rng.uniform(-1, 1) + 1.5 * (a % 3), rng.uniform(-1, 1) + 1.2 * (a // 3), rng.uniform(-1, 1)] for a in range(NAT)]
     N = rng.randint(10, 16)
     swap_at = rng.randint(3, N - 3) if rng.rand() < 0.7 else -1
